@@ -63,24 +63,50 @@ def r8_1(ctx):
     ctx.end()
 
 
-def feeding_reads(func, expr_nodes, row_attr=None):
+def _enclosing_ifs(func, node):
+    pm = parent_map(func.node)
+    g = pm.get(id(node))
+    while g is not None and g is not func.node:
+        if isinstance(g, ast.If):
+            yield g
+        g = pm.get(id(g))
+
+
+def feeding_reads(func, expr_nodes, row_attr=None, repo=None, _depth=0):
     """Attribute reads on `self` that can flow into the given expressions inside `func` (flow-insensitive def-use
     through local names, including the tests of `if` statements that guard assignments to those names).  A loop variable
     over a literal table is defined by the table's elements; with `row_attr`, only by the rows that mention `self.<row_attr>`
     (the row of the log being written)."""
     names_done, reads, todo = set(), set(), list(expr_nodes)
     pm = parent_map(func.node)
+
+    def table_of(it):
+        """the literal a loop iterates over: written in place, or a local bound once to one"""
+        if isinstance(it, ast.Name):
+            defs = [a.value for a in ast.walk(func.node) if isinstance(a, ast.Assign) and any(isinstance(t, ast.Name) and t.id == it.id for t in a.targets)]
+            if len(defs) == 1:
+                it = defs[0]
+        return it if isinstance(it, (ast.Tuple, ast.List)) else None
     while todo:
         e = todo.pop()
         for n in ast.walk(e):
             if isinstance(n, ast.Attribute) and isinstance(n.value, ast.Name) and n.value.id == "self":
                 reads.add(n.attr)
+            if isinstance(n, ast.Call) and isinstance(n.func, ast.Attribute) and isinstance(n.func.value, ast.Name) and n.func.value.id == "self" and repo is not None \
+                    and func.cls and _depth < 3:
+                # the value comes out of a private helper of the same object: what feeds the helper's return values feeds this one
+                m = repo.lookup_method(func.cls, n.func.attr)
+                if m is not None and n.func.attr.startswith("_") and not n.func.attr.endswith("__"):
+                    nested = {id(x) for d in ast.walk(m.node) if isinstance(d, (ast.FunctionDef, ast.Lambda)) and d is not m.node for x in ast.walk(d)}
+                    rets = [r.value for r in ast.walk(m.node) if isinstance(r, ast.Return) and r.value is not None and id(r) not in nested]
+                    conds = [g.test for r in ast.walk(m.node) if isinstance(r, ast.Return) and id(r) not in nested for g in _enclosing_ifs(m, r)]
+                    reads |= feeding_reads(m, rets + conds, repo=repo, _depth=_depth + 1)
             if isinstance(n, ast.Name) and n.id not in names_done and n.id != "self":
                 names_done.add(n.id)
                 for lp in ast.walk(func.node):
-                    if isinstance(lp, (ast.For, ast.comprehension)) and isinstance(lp.iter, (ast.Tuple, ast.List)) \
+                    if isinstance(lp, (ast.For, ast.comprehension)) and table_of(lp.iter) is not None \
                             and any(isinstance(x, ast.Name) and x.id == n.id for x in ast.walk(lp.target)):
-                        rows = list(lp.iter.elts)
+                        rows = list(table_of(lp.iter).elts)
                         if row_attr is not None:
                             sel = [r for r in rows if any(isinstance(x, ast.Attribute) and x.attr == row_attr for x in ast.walk(r))]
                             rows = sel or rows
@@ -122,7 +148,7 @@ def r8_2(ctx):
             argn = ev.argnodes[0] if ev.argnodes else None
             ctx.require(argn is not None, f"append without argument at {ev.loc}")
             con = construct(func, f"snapshot:{key[1]}")
-            reads = feeding_reads(func, [argn], row_attr=ev.attr)
+            reads = feeding_reads(func, [argn], row_attr=ev.attr, repo=ctx.repo)
             own = {r for r in reads if ctx.types.field_type(ev.cls, r) is not None}
             ctx.instance(con, sample={"log": f"{key[0]}.{key[1]}", "live": live, "reads": sorted(own), "value": ast.unparse(argn)[:80]})
             # only the paired attribute (and the display flag handled by conds on self.<live>) may feed the value
@@ -133,7 +159,7 @@ def r8_2(ctx):
             cond_reads = set()
             while g is not None and g is not func.node:
                 if isinstance(g, ast.If):
-                    cond_reads |= feeding_reads(func, [g.test], row_attr=ev.attr)
+                    cond_reads |= feeding_reads(func, [g.test], row_attr=ev.attr, repo=ctx.repo)
                 g = pm.get(id(g))
             extra |= {r for r in cond_reads if ctx.types.field_type(ev.cls, r) is not None} - {live}
             if extra:
